@@ -69,6 +69,14 @@ def tasks(tier):
                    abort_kind="falsy-object", sleeper="call" if "deco" not in e else "policy",
                    max_unknown=None, strat_menu=[1, 0], strat_free=True)
         out.append({"family": "abort-falsy-token", "cfg": cfg, "entry": e, "bound": 1})
+    # abort_if is a callable object that also looks like an Event (is_set / set / wait): it is
+    # consulted by calling it
+    for mode, e in itertools.product(["answer", "flag"], Q4 + POL[:2] + POL0 + ["RetryPolicy.call", "deco", "adeco",
+                                                                        "Retry.context"]):
+        cfg = dict(M=M if "0" not in e else 1, alphabet=["ok", "x:T", "r:T"] if "0" not in e else ["ok", "x:T"],
+                   abort=True, abort_mode=mode, abort_kind="eventlike",
+                   sleeper="call" if "deco" not in e else "policy", max_unknown=None)
+        out.append({"family": "abort-eventlike-predicate", "cfg": cfg, "entry": e, "bound": 1})
     # a long-lived context object whose abort_if (and sleeper) are assigned after .context()
     for mode, e in itertools.product(["answer", "flag"], ["Policy.contextset", "Retry.contextset", "RetryPolicy.contextset",
                                                            "AsyncPolicy.contextset", "AsyncRetry.contextset"]):
@@ -124,6 +132,17 @@ def tasks(tier):
         if at is not None and bs:
             out.append({"family": "async-loop-cancel", "cfg": dict(cfg, unwind_ticks=1), "entry": e,
                         "bound": 1, "weight": 5})
+    # the task's cancellation is *requested* while an attempt runs (task.cancel() from inside the
+    # operation): it is delivered at the next suspension point, which the backoff sleep is - also
+    # a zero-length one through the library's default sleeper
+    for e, sl, hd in itertools.product(["AsyncRetry.call", "AsyncRetry.execute", "AsyncPolicy.call",
+                                        "AsyncPolicy.execute", "adeco"], [None, "call"], [None, "call"]):
+        if e == "adeco" and (sl or hd):
+            continue
+        cfg = dict(M=3, alphabet=["sc:x:T", "ok", "x:T", "sc:r:T"], loop=True, sleeper=sl,
+                   sleeper_async=True, handler=hd, handler_menu=["SLEEP"], strat_menu=[0, 1, "nan", -1],
+                   strat_free=True, max_unknown=None)
+        out.append({"family": "async-cancel-requested", "cfg": cfg, "entry": e, "bound": 1, "weight": 3})
     # sync attempt timeout (owned executor): cancellation-type exceptions still propagate
     for e in Q4[:2] + POL[:2]:
         cfg = dict(M=3, alphabet=ALPHA, abort=True, attempt_timeout=2, durs=[0, 3], dur_free=True,
@@ -141,8 +160,18 @@ def monitor(w, cfg):
         flag_at = None
         cancelled_at = None
         cancel_obj = None
+        creq = None
         for i, r in enumerate(recs):
             k = r[0]
+            if k == "cancel_requested":
+                creq = r[1]
+                continue
+            if creq is not None and ((k == "op" and r[1] != creq)
+                                     or (k == "sleep" and not (len(r) > 5 and r[5] == "cut"))):
+                v.append(("c13.work-after-cancel",
+                          f"{k} {r[1:3]} performed although the task's cancellation had been "
+                          f"requested during attempt {creq}: no suspension point delivered it"))
+                creq = None
             if k == "abort_flag":
                 flag_at = i
                 continue
